@@ -85,8 +85,8 @@ impl Property for C07 {
     }
     fn cases(&self, tier: Tier) -> u64 {
         match tier {
-            Tier::Quick => 200_000,
-            Tier::Thorough => 5_000_000,
+            Tier::Quick => 600000,
+            Tier::Thorough => 10000000,
         }
     }
     fn decode(&mut self, tape: &TapeVal) -> Case {
